@@ -1,0 +1,11 @@
+//go:build verif
+
+package peer
+
+import "github.com/postalsys/muti-metroo/internal/transport"
+
+// Read-only accessors for the verification harness (build tag verif only).
+
+// VerifPeerConn returns the transport connection underneath c, so that the
+// harness can tell on which simulated link a registered connection runs.
+func (c *Connection) VerifPeerConn() transport.PeerConn { return c.conn }
